@@ -214,6 +214,11 @@ impl SymbolTable {
     })
   }
 
+  /// The type arguments a type name was specialized with: `[int]` for `Box__int`.
+  pub fn type_name_suffix(&self, id: TypeNameId) -> &[Type] {
+    &self.type_name_lookup_table.get(&id).unwrap().suffix
+  }
+
   /// If the given TypeNameId is a subtype (has a sub_type_tag), returns the parent TypeNameId.
   /// Otherwise returns None.
   pub fn get_parent_type_if_subtype(&self, id: TypeNameId) -> Option<TypeNameId> {
